@@ -278,9 +278,12 @@ impl AsyncRead for SimStream {
         }
         if d.buf.is_empty() {
             if d.writer_closed {
+                let (id, t) = (this.id, this.t0.elapsed());
+                this.sim.ev(|| format!("t={t:?} net[{id}] {side:?} read EOF"));
                 return Poll::Ready(Ok(())); // EOF
             }
             d.read_waker = Some(cx.waker().clone());
+            this.sim.probe("net-read-pending-empty");
             return Poll::Pending;
         }
         let avail = d.buf.len().min(buf.remaining());
@@ -338,6 +341,8 @@ impl AsyncWrite for SimStream {
         }
         let d = if side == Side::Client { &mut c.c2s } else { &mut c.s2c };
         if d.killed.is_some() || d.reader_gone {
+            let (id, k, g) = (this.id, d.killed, d.reader_gone);
+            this.sim.ev(|| format!("t={now:?} net[{id}] {side:?} write -> BrokenPipe (killed={k:?} reader_gone={g})"));
             return Poll::Ready(Err(io::Error::new(io::ErrorKind::BrokenPipe, "simulated broken pipe")));
         }
         if d.writer_closed {
@@ -385,6 +390,8 @@ impl AsyncWrite for SimStream {
     }
 
     fn poll_shutdown(self: Pin<&mut Self>, _cx: &mut Context<'_>) -> Poll<io::Result<()>> {
+        let (id, side, t) = (self.id, self.side, self.t0.elapsed());
+        self.sim.ev(|| format!("t={t:?} net[{id}] {side:?} shutdown(write)"));
         let mut c = self.conn.lock().unwrap();
         let d = if self.side == Side::Client { &mut c.c2s } else { &mut c.s2c };
         d.writer_closed = true;
@@ -419,7 +426,8 @@ impl Drop for SimStream {
         c.c2s.wake_all();
         c.s2c.wake_all();
         let side = self.side;
-        self.sim.ev(|| format!("t={now:?} net: {side:?} end of connection {id} dropped"));
+        let bt = std::env::var("SIMNET_DROP_BT").is_ok();
+        self.sim.ev(|| format!("t={now:?} net: {side:?} end of connection {id} dropped{}", if bt { format!("\n{}", std::backtrace::Backtrace::force_capture()) } else { String::new() }));
         self.sim.mark(0x30 + (side == Side::Server) as u64);
     }
 }
